@@ -371,6 +371,10 @@ def run(ctx):
     if not fai_final_newline:
         ctx.scenario["fai_final_newline"] = False
         ctx.probe("supplied_fai_without_final_newline")
+    # (also drawn after all older decisions) the same Genome object is asked for the sequence of a SECOND file
+    second_file = route == "genome" and tape.boolean("second_file", 1, 3)
+    if second_file:
+        ctx.scenario["second_file"] = True
 
     # ---- static probes
     for r in spec["records"]:
@@ -499,6 +503,33 @@ def run(ctx):
                 raise Violation("whole_contig", "changed_by_later_fetch", w.detail(
                     name=name, expected=expected, got=core.short(got_t, 500),
                     repro=_repro(data, route, "fetch every contig, keep the results, compare them afterwards")))
+
+        # -- the same Genome object serves another FASTA file (same contig names, other bases)
+        if second_file and genome is not None and not raised(genome) and not w.fault_seen:
+            import copy
+            spec2 = copy.deepcopy(spec)
+            for r in spec2["records"]:
+                r["seq"] = r["seq"][1:] + r["seq"][:1]
+            other = "/sim/other.fa"
+            fs.put(other, F.serialize(spec2))
+            h2, fired = w.call(genome.read_sequence, other)
+            ctx.steps += 1
+            if not raised(h2) and not fired:
+                for i, r in enumerate(spec2["records"]):
+                    got, fired = w.call(lambda: h2[w.names[i]])
+                    if raised(got) or fired:
+                        ctx.probe("second_file_fetch_raises(not judged)")
+                        break
+                    got_t = _text(got)
+                    got_t = got_t.upper() if isinstance(got_t, str) else got_t
+                    ctx.evals += 1
+                    ctx.probe("second_file_fetched")
+                    if not core.same(got_t, r["seq"].upper()):
+                        raise Violation("whole_contig", "second_file_served_from_first", w.detail(
+                            name=w.names[i], expected=r["seq"].upper(), got=core.short(got_t, 300),
+                            repro="g = Genome.from_file(a.fa); g.read_sequence(); g.read_sequence(b.fa)[name]"))
+            else:
+                ctx.probe("second_file_open_raises(not judged)")
 
         # -- I/O pattern of the fetch phase (recorded, not judged: the property does not constrain it)
         for e in fs.log:
